@@ -64,15 +64,17 @@ def check_pair(ctx, sc):
         n_term = [e[2] for e in rec.events if e[1] == key and e[2] in TERMINAL]
         sites = [str(e[3]) for e in rec.events if e[1] == key and e[2] in TERMINAL]  # which pynetdicom function fired each one
         if len(o) > 1:
-            how = "+".join(sorted({f"{n.replace('EVT_', '')}@{st_}" for n, st_ in zip(n_term, sites)})) or "no-notification"
-            ctx.fail("multiple-outcomes", f"{name}:{'+'.join(o)}:{how}" + (":dul-died" if died else ""), f"{name} reports {o} (terminal notifications {list(zip(n_term, sites))}); scenario {_brief(sc)}")
+            ctx.fail("multiple-outcomes", f"{name}:{'+'.join(o)}" + (":dul-died" if died else ""), f"{name} reports {o} (terminal notifications {list(zip(n_term, sites))}); scenario {_brief(sc)}")
             return
         if len(n_term) > 1:
             acse = [e[3] for e in rec.events if e[1] == key and e[2] == "EVT_ACSE_SENT"]
             when = "during-own-release" if "A_RELEASE" in acse else "no-own-release"
             kinds = sorted(set(n_term))
             label = f"{kinds[0]}-repeated" if len(kinds) == 1 else "+".join(kinds)
-            ctx.fail("terminal-event-count", f"{name}:{label}:{when}:{'+'.join(sorted(sites))}" + (":dul-died" if died else ""), f"{name} fired terminal events {n_term} from {sites}; outcome {o}; scenario {_brief(sc)}")
+            # every call site guards its own notification, so on the listed findings each site appears once; the same site firing twice is a
+            # different defect (its guard is broken) and gets its own key
+            twice = sorted({st_ for st_ in sites if sites.count(st_) > 1})
+            ctx.fail("terminal-event-count", f"{name}:{label}:{when}" + "".join(f":twice-from:{t}" for t in twice) + (":dul-died" if died else ""), f"{name} fired terminal events {n_term} from {sites}; outcome {o}; scenario {_brief(sc)}")
             return
         if died:
             continue
